@@ -52,6 +52,27 @@ class GenericCallAdapter(Adapter):
         raise NotImplementedError(cls)
 
     @classmethod
+    def positional_names(cls, value) -> list[str]:
+        """Names of the keyword arguments which can also be given by position
+        (in this order)."""
+        return []
+
+    @classmethod
+    def _source_arguments(cls, value, node):
+        """Like arguments(), but the arguments which are written by position
+        in the source are returned as positional arguments."""
+        args, kwargs = cls.arguments(value)
+        args, kwargs = list(args), dict(kwargs)
+
+        if node is not None:
+            for name in cls.positional_names(value)[len(args) : len(node.args)]:
+                if name not in kwargs:
+                    break
+                args.append(kwargs.pop(name))
+
+        return args, kwargs
+
+    @classmethod
     def repr(cls, value):
 
         args, kwargs = cls.arguments(value)
@@ -77,8 +98,6 @@ class GenericCallAdapter(Adapter):
 
     @classmethod
     def items(cls, value, node):
-        new_args, new_kwargs = cls.arguments(value)
-
         if node is not None:
             if (
                 not isinstance(node, ast.Call)
@@ -88,6 +107,8 @@ class GenericCallAdapter(Adapter):
                 # not a call (e.g. a variable) or star-expressions:
                 # the arguments can not be mapped to nodes
                 node = None
+
+        new_args, new_kwargs = cls._source_arguments(value, node)
 
         if node is not None:
             kw_arg_node = {kw.arg: kw.value for kw in node.keywords if kw.arg}.get
@@ -144,7 +165,7 @@ class GenericCallAdapter(Adapter):
                 )
                 return old_value
 
-        new_args, new_kwargs = self.arguments(new_value)
+        new_args, new_kwargs = self._source_arguments(new_value, old_node)
 
         # positional arguments
 
@@ -277,12 +298,18 @@ class DataclassAdapter(GenericCallAdapter):
 
         return ([], kwargs)
 
+    @classmethod
+    def positional_names(cls, value):
+        return [
+            field.name
+            for field in fields(value)
+            if field.init and not getattr(field, "kw_only", False)
+        ]
+
     def argument(self, value, pos_or_name):
-        if isinstance(pos_or_name, str):
-            return getattr(value, pos_or_name)
-        else:
-            args = [field for field in fields(value) if field.init]
-            return args[pos_or_name]
+        if isinstance(pos_or_name, int):
+            pos_or_name = self.positional_names(value)[pos_or_name]
+        return getattr(value, pos_or_name)
 
 
 try:
@@ -329,8 +356,17 @@ else:
 
             return ([], kwargs)
 
+        @classmethod
+        def positional_names(cls, value):
+            return [
+                field.name
+                for field in attrs.fields(type(value))
+                if field.init and not field.kw_only
+            ]
+
         def argument(self, value, pos_or_name):
-            assert isinstance(pos_or_name, str)
+            if isinstance(pos_or_name, int):
+                pos_or_name = self.positional_names(value)[pos_or_name]
             return getattr(value, pos_or_name)
 
 
@@ -432,8 +468,13 @@ class NamedTupleAdapter(GenericCallAdapter):
             },
         )
 
+    @classmethod
+    def positional_names(cls, value):
+        return list(value._fields)
+
     def argument(self, value, pos_or_name):
-        assert isinstance(pos_or_name, str)
+        if isinstance(pos_or_name, int):
+            pos_or_name = self.positional_names(value)[pos_or_name]
         return getattr(value, pos_or_name)
 
 
